@@ -237,6 +237,9 @@ VERIFY_SHAPES = [
      lambda m: "(fun c => !(P.eqIgnoreAsciiCase c.flatten %s))" % lean_str(m.group(1))),
     (re.compile(r'^\|\s*\(\s*s\s*,\s*_\s*,\s*e\s*\)\s*\|\s*s\.name\s*==\s*\*e$'),
      lambda m: "P.tagNamesMatch"),
+    # verify(qname, |v: &QName| !matches!(v, QName::Unprefixed("a" | "b" | ...)))
+    (re.compile(r'^\|\s*v\s*:\s*&QName\s*\|\s*\{?\s*!\s*matches!\(\s*v\s*,\s*QName::Unprefixed\(\s*((?:"[^"]*"\s*\|?\s*)+)\)\s*\)\s*\}?$'),
+     lambda m: "(fun c => !(%s).contains c.flatten)" % ("[" + ", ".join(lean_str(x) for x in re.findall(r'"([^"]*)"', m.group(1))) + "]")),
 ]
 
 
@@ -355,7 +358,7 @@ class Grammar:
         text = re.sub(r"^//[^\n]*\n", "", text, flags=re.M).strip()
         # recursion-depth guard:  count up, refuse beyond the limit, else delegate, count down
         m = re.match(r"let depth = (\w+)\.with\(\|d\| \{ d\.set\(d\.get\(\) \+ 1\); d\.get\(\) \}\); "
-                     r"let result = if depth > (\w+) \{ Err\(nom::Err::Error\(nom::error::Error::new\( input, "
+                     r"let result = if depth > (\w+) \{ Err\(nom::Err::(?:Error|Failure)\(nom::error::Error::new\( input, "
                      r"ErrorKind::TooLarge, \)\)\) \} else \{ (\w+)\(input\) \}; "
                      r"\1\.with\(\|d\| d\.set\(d\.get\(\) - 1\)\); result$", " ".join(text.split()))
         if m:
@@ -405,14 +408,18 @@ class Grammar:
         for i, (n, t) in enumerate(self.prods):
             lines.append("theorem env_%s : env N.%s = Prod.%s := rfl" % (n, lean_id(n), lean_id(n)))
         lines.append("")
+        guarded = {}
         for fn, const in self.depth_guards:
             if const not in self.consts:
                 raise TranslateError("%s: limit constant %s not found" % (fn, const))
-            lines.append("/-- `%s` refuses nesting deeper than this (thread-local depth counter in the source) -/" % fn)
-            lines.append("def maxDepth_%s : Nat := %d" % (fn, self.consts[const]))
-        if not self.depth_guards:
-            lines.append("/-- no recursion-depth guard in the source: unbounded -/")
-            lines.append("def maxDepth_element : Nat := 0")
+            guarded[fn] = self.consts[const]
+        # one constant per production that the model expects to be guarded; 0 = no guard in the source (unbounded)
+        for fn in sorted(set(guarded) | {"element" if namespace == "Xml" else "expr"}):
+            if fn in guarded:
+                lines.append("/-- `%s` refuses nesting deeper than this (thread-local depth counter in the source) -/" % fn)
+            else:
+                lines.append("/-- no recursion-depth guard on `%s` in the source: unbounded -/" % fn)
+            lines.append("def maxDepth_%s : Nat := %d" % (fn, guarded.get(fn, 0)))
         lines.append("")
         lines.append("/-- semantic actions (closures of `map`) seen by the translator: (production, sha1 of the text).")
         lines.append("    The model's `abs` functions are hand-written counterparts; the differential tie covers them. -/")
